@@ -27,7 +27,7 @@ pub const KINDS: [&str; 8] = [
     // a context function that is the TARGET of a compound assignment (`f += 1` evaluates f first)
     "ctx_function_compound_target",
 ];
-pub const ACTIONS: [&str; 10] = [
+pub const ACTIONS: [&str; 11] = [
     "parse_expression",
     "execute_new_context",
     "register_function",
@@ -38,8 +38,10 @@ pub const ACTIONS: [&str; 10] = [
     "lock_own_context_write",
     "execute_on_shared_handle",
     "dump_own_context",
+    // the nested evaluation FAILS after it evaluated some operands; the handler swallows the error
+    "execute_failing_program",
 ];
-pub const POSITIONS: [&str; 8] = [
+pub const POSITIONS: [&str; 9] = [
     "root",
     "nested_operand",
     "conditional_then",
@@ -53,6 +55,8 @@ pub const POSITIONS: [&str; 8] = [
     // `[<handler>, name]` where the handler writes `name` into the evaluating context: the later
     // element must see the write (elements are evaluated one after the other, not from a snapshot)
     "list_element_before_the_name_it_writes",
+    // `pk(<handler>, name, ..)`: the same for call arguments that are all plain names
+    "call_argument_before_the_name_it_writes",
 ];
 
 /// kinds that are context functions (any handler kind may lock / evaluate on the evaluating
@@ -75,7 +79,7 @@ pub fn matrix() -> Vec<(usize, usize, usize)> {
                 if p == 6 && (!(a == 7 || a == 8) || k >= 6) {
                     continue;
                 }
-                if p == 7 && (!(a == 7 || a == 8) || k >= 6) {
+                if (p == 7 || p == 8) && (!(a == 7 || a == 8) || k >= 6) {
                     continue;
                 }
                 v.push((k, a, p));
@@ -136,7 +140,15 @@ fn action(case: &mut Case, a: usize, target: Option<&str>) -> (Vec<Op>, Option<E
             Some(rf("hz")),
             Ret::Const(Val::int(7)),
         ),
-        _ => (vec![], None, Ret::DumpSlot(0)),
+        9 => (vec![], None, Ret::DumpSlot(0)),
+        _ => (
+            vec![
+                Op::Exec { prog: Prog::one(call("max", vec![lit_i(7), lit_i(8), bin("+", lit_b(true), lit_i(1))])), ctx: fresh() },
+                Op::Exec { prog: Prog::one(Expr::List(vec![lit_i(5), rf("v"), bin("*", lit_s("a"), lit_i(2))])), ctx: fresh() },
+            ],
+            None,
+            Ret::Const(Val::int(7)),
+        ),
     }
 }
 
@@ -195,6 +207,7 @@ fn at_position(p: usize, node: Expr) -> Expr {
         2 => tern(lit_b(true), node, lit_i(0)),
         3 => tern(lit_b(false), lit_i(0), node),
         7 => Expr::List(vec![node, rf("hw"), rf("hz"), rf("y")]),
+        8 => call("pk", vec![node, rf("hw"), rf("hz"), rf("y")]),
         // nf(<node>): the callee is registered (4) or replaced (5) while its argument is evaluated
         _ => call("nf", vec![node]),
     }
@@ -207,6 +220,10 @@ pub fn matrix_case(k: usize, a: usize, p: usize) -> Case {
     // a DumpSlot / constant return for the kinds whose value is used arithmetically
     let ret = if k == 7 && matches!(ret, Ret::DumpSlot(_)) { Ret::Const(Val::int(7)) } else { ret };
     let h = case.add_handler(HandlerSpec { kind: hkind(k), ret, actions: ops });
+    if p == 8 {
+        let pk = marker(&mut case, HKind::Func);
+        case.pre.push(Op::RegFn { name: "pk".into(), h: pk });
+    }
     if p == 5 {
         // the function the handler re-registers already exists (with another handler)
         let old = marker(&mut case, HKind::Func);
@@ -404,7 +421,7 @@ impl Prop for C14 {
             rule: "exhaustive part: every existing cell of handler kind {global function, prefix, infix, postfix, context function by call, context function by \
                    bare name, user-registered SETTER operator, context function as the target of a compound assignment} x re-entrant action {parse_expression, execute on a new context, register_function/prefix/infix/postfix, and for context \
                    functions: lock the evaluating context's handle and read / write it / evaluate on a Context sharing it / dump it} x program position {root, \
-                   nested operand, then-branch, else-branch, and for register_function: as an argument of the very function it registers / replaces} = 356 cases, all run on every invocation; sampled part: seeded chains of 2..4 re-entrant \
+                   nested operand, then-branch, else-branch, and for register_function: as an argument of the very function it registers / replaces} = 400 cases, all run on every invocation; sampled part: seeded chains of 2..4 re-entrant \
                    handlers each evaluating a program that invokes the next, in a third of them with a bystander thread that registers and evaluates concurrently \
                    (seeded schedules). Fresh simulated process per case. evaluations = simulated \
                    executions; distinct_nontrivial = distinct cases in which at least one re-entrant action was actually performed inside a handler",
